@@ -1,40 +1,1025 @@
 /-
-  C11 — intersection results lie on both operands and none are missed.
-  Property theorems only (helper lemmas live in Lemmas/).  All statements are about the
-  definitions regenerated from the repository by py2lean (`Lbg.Gen.*`).
+  C11 — "Every point returned by an intersection routine lies on both operands and inside
+  their parameter ranges; the result is the same when operands are swapped; a transversal
+  crossing inside both ranges is returned; exactly separated operands return nothing."
+
+  Property theorems only (helper lemmas live in `Lemmas/Isect2.lean`, `Lemmas/Isect3.lean`).
+  All statements are about the definitions regenerated from the repository by py2lean
+  (`Lbg.Gen.*`).  Suffixes: `_ss/_sr/_rs/_rr` = (segment|ray) × (segment|ray); a segment's
+  parameter range is `0 ≤ t ≤ 1`, a ray's is `0 ≤ t`.
+
+  Scope note ("transversal"): all 2D line/line kernels return `none` when the direction
+  determinant `d = b.v.y*a.v.x - b.v.x*a.v.y` is exactly zero, even if the operands are
+  collinear and overlap.  The completeness theorems therefore carry the guard `d ≠ 0`
+  (`Transversal2`), which is exactly the guard the Python code checks.
 -/
 import LbgVerif.Gen.Isect2
+import LbgVerif.Gen.Isect3
+import LbgVerif.Lemmas.Isect2
+import LbgVerif.Lemmas.Isect3
 import Mathlib.Tactic.Ring
 import Mathlib.Tactic.FieldSimp
 import Mathlib.Tactic.Linarith
 import Mathlib.Tactic.SplitIfs
+import Mathlib.Tactic.LinearCombination
+import Mathlib.Algebra.Order.Field.Rat
+
+set_option linter.unusedSectionVars false
 
 namespace Lbg.Props.C11
 open Lbg Lbg.Gen
 variable {α : Type} [Field α] [LinearOrder α] [IsStrictOrderedRing α]
 
-/-- `q = l.p + t·l.v`. -/
+/-! ## Predicates used in the statements -/
+
+/-- `q = l.p + t·l.v` (componentwise). -/
 def At2 (l : LR2 α) (t : α) (q : V2 α) : Prop :=
   q.x = l.p.x + t * l.v.x ∧ q.y = l.p.y + t * l.v.y
 
-/-- `q` lies on the segment `l.p … l.p + l.v`. -/
+/-- `q` lies on the segment `l.p … l.p + l.v` (parameter in `[0,1]`). -/
 def OnSeg2 (l : LR2 α) (q : V2 α) : Prop := ∃ t, 0 ≤ t ∧ t ≤ 1 ∧ At2 l t q
-/-- `q` lies on the ray from `l.p` along `l.v`. -/
+/-- `q` lies on the ray from `l.p` along `l.v` (parameter in `[0,∞)`). -/
 def OnRay2 (l : LR2 α) (q : V2 α) : Prop := ∃ t, 0 ≤ t ∧ At2 l t q
+/-- `q` lies on the infinite carrier line of `l` (any parameter). -/
+def OnLine2 (l : LR2 α) (q : V2 α) : Prop := ∃ t, At2 l t q
 
+/-- The operands are not parallel: the determinant guarded by the code is non-zero. -/
+def Transversal2 (a b : LR2 α) : Prop := b.v.y * a.v.x - b.v.x * a.v.y ≠ 0
+
+/-- `q = l.p + t·l.v` (componentwise, 3D). -/
+def At3 (l : LR3 α) (t : α) (q : V3 α) : Prop :=
+  q.x = l.p.x + t * l.v.x ∧ q.y = l.p.y + t * l.v.y ∧ q.z = l.p.z + t * l.v.z
+
+/-- `q` lies on the 3D segment (parameter in `[0,1]`). -/
+def OnSeg3 (l : LR3 α) (q : V3 α) : Prop := ∃ t, 0 ≤ t ∧ t ≤ 1 ∧ At3 l t q
+/-- `q` lies on the 3D ray (parameter in `[0,∞)`). -/
+def OnRay3 (l : LR3 α) (q : V3 α) : Prop := ∃ t, 0 ≤ t ∧ At3 l t q
+/-- `q` lies on the infinite 3D carrier line. -/
+def OnLine3 (l : LR3 α) (q : V3 α) : Prop := ∃ t, At3 l t q
+
+/-- `q` satisfies the plane equation `n·q = k`. -/
+def OnPlane (pl : PlaneS α) (q : V3 α) : Prop :=
+  pl.n.x * q.x + pl.n.y * q.y + pl.n.z * q.z = pl.k
+
+/-- The line direction is not parallel to the plane: `n·v ≠ 0` (the code's guard). -/
+def Crosses3 (l : LR3 α) (pl : PlaneS α) : Prop :=
+  pl.n.x * l.v.x + pl.n.y * l.v.y + pl.n.z * l.v.z ≠ 0
+
+/-- Squared Euclidean distance in 3D. -/
+def distSq3 (a b : V3 α) : α :=
+  (a.x - b.x) * (a.x - b.x) + (a.y - b.y) * (a.y - b.y) + (a.z - b.z) * (a.z - b.z)
+
+/-- `q` satisfies the sphere equation `|q − c|² = r²`. -/
+def OnSphere (sp : SphereS α) (q : V3 α) : Prop :=
+  distSq3 q sp.center = sp.radius * sp.radius
+
+/-! ## 2D line / line -/
+
+/-! ### segment `a` × segment `b` -/
+
+/-- Full characterisation (segment `a` × segment `b`): the routine returns `q` exactly when the operands are
+transversal (`d ≠ 0`, the code's guard) and `q` lies on `a` within its range and on `b` within
+its range.  (Soundness, completeness and uniqueness of the returned point in one statement.) -/
+theorem intersect_line2d_ss_iff (a b : LR2 α) (q : V2 α) :
+    intersect_line2d_ss a b = some q ↔ Transversal2 a b ∧ OnSeg2 a q ∧ OnSeg2 b q := by
+  rw [Lemmas.intersect_line2d_ss_eq]
+  exact Lemmas.isect2_eq_some_iff .seg .seg a b q
+
+/-- Soundness (segment `a` × segment `b`): a returned point lies on both operands, inside both parameter
+ranges. -/
 theorem intersect_line2d_ss_sound (a b : LR2 α) (q : V2 α)
-    (h : intersect_line2d_ss a b = some q) : OnSeg2 a q ∧ OnSeg2 b q := by
-  unfold intersect_line2d_ss at h
+    (h : intersect_line2d_ss a b = some q) : OnSeg2 a q ∧ OnSeg2 b q :=
+  ((intersect_line2d_ss_iff a b q).mp h).2
+
+/-- Completeness (segment `a` × segment `b`): a transversal crossing (`d ≠ 0`) at parameters `ta`, `tb` inside
+both ranges is returned, and the returned point is that crossing point. -/
+theorem intersect_line2d_ss_complete (a b : LR2 α) (hd : Transversal2 a b) (ta tb : α)
+    (hta : 0 ≤ ta ∧ ta ≤ 1) (htb : 0 ≤ tb ∧ tb ≤ 1)
+    (hx : a.p.x + ta * a.v.x = b.p.x + tb * b.v.x)
+    (hy : a.p.y + ta * a.v.y = b.p.y + tb * b.v.y) :
+    intersect_line2d_ss a b = some ⟨a.p.x + ta * a.v.x, a.p.y + ta * a.v.y⟩ :=
+  (intersect_line2d_ss_iff a b _).mpr
+    ⟨hd, ⟨ta, hta.1, hta.2, rfl, rfl⟩, ⟨tb, htb.1, htb.2, hx, hy⟩⟩
+
+/-- Parallel operands (segment `a` × segment `b`): if the determinant is exactly zero the routine returns
+nothing (this is the code's guard; it also covers collinear overlapping operands). -/
+theorem intersect_line2d_ss_none_of_parallel (a b : LR2 α)
+    (h : b.v.y * a.v.x - b.v.x * a.v.y = 0) : intersect_line2d_ss a b = none := by
+  rw [Option.eq_none_iff_forall_ne_some]
+  intro q hq
+  exact ((intersect_line2d_ss_iff a b q).mp hq).1 h
+
+/-- Separated operands (segment `a` × segment `b`): if no point lies on both operands (within their ranges)
+the routine returns nothing. -/
+theorem intersect_line2d_ss_none_of_separated (a b : LR2 α)
+    (hsep : ∀ q, ¬ (OnSeg2 a q ∧ OnSeg2 b q)) : intersect_line2d_ss a b = none := by
+  rw [Option.eq_none_iff_forall_ne_some]
+  intro q hq
+  exact hsep q (intersect_line2d_ss_sound a b q hq)
+
+/-- Separated operands, parameter form (segment `a` × segment `b`): if the operands are transversal and the unique
+solution `(ta, tb)` of the 2×2 system has a parameter outside its range, nothing is returned. -/
+theorem intersect_line2d_ss_none_of_param_outside (a b : LR2 α) (hd : Transversal2 a b) (ta tb : α)
+    (hx : a.p.x + ta * a.v.x = b.p.x + tb * b.v.x)
+    (hy : a.p.y + ta * a.v.y = b.p.y + tb * b.v.y)
+    (hout : ¬ ((0 ≤ ta ∧ ta ≤ 1) ∧ (0 ≤ tb ∧ tb ≤ 1))) : intersect_line2d_ss a b = none := by
+  rw [Option.eq_none_iff_forall_ne_some]
+  intro q hq
+  obtain ⟨_, ⟨ta', ha0, ha1, hax, hay⟩, ⟨tb', hb0, hb1, hbx, hby⟩⟩ :=
+    (intersect_line2d_ss_iff a b q).mp hq
+  obtain ⟨e1, e2⟩ := Lemmas.cramer_unique a b hd ta tb hx hy
+  obtain ⟨e1', e2'⟩ :=
+    Lemmas.cramer_unique a b hd ta' tb' (hax.symm.trans hbx) (hay.symm.trans hby)
+  have h1 : ta = ta' := e1.trans e1'.symm
+  have h2 : tb = tb' := e2.trans e2'.symm
+  subst h1; subst h2
+  exact hout ⟨⟨ha0, ha1⟩, ⟨hb0, hb1⟩⟩
+
+/-- Symmetry (segment `a` × segment `b`): swapping the operands gives exactly the same result (the same point, as
+an identity in the field, or `none` on both sides). -/
+theorem intersect_line2d_ss_symm (a b : LR2 α) :
+    intersect_line2d_ss a b = intersect_line2d_ss b a := by
+  rw [Lemmas.intersect_line2d_ss_eq, Lemmas.intersect_line2d_ss_eq]
+  exact Lemmas.isect2_symm .seg .seg a b
+
+/-- The boolean existence test agrees with the point-returning routine (segment `a` × segment `b`). -/
+theorem does_intersection_exist_line2d_ss_iff (a b : LR2 α) :
+    does_intersection_exist_line2d_ss a b = true ↔ (intersect_line2d_ss a b).isSome = true := by
+  rw [Lemmas.does_intersection_exist_line2d_ss_eq, Lemmas.intersect_line2d_ss_eq]
+
+/-- The boolean existence test is `true` exactly when the operands are transversal and share a
+point within their ranges (segment `a` × segment `b`). -/
+theorem does_intersection_exist_line2d_ss_iff_exists (a b : LR2 α) :
+    does_intersection_exist_line2d_ss a b = true ↔ Transversal2 a b ∧ ∃ q, OnSeg2 a q ∧ OnSeg2 b q := by
+  rw [does_intersection_exist_line2d_ss_iff, Option.isSome_iff_exists]
+  constructor
+  · rintro ⟨q, hq⟩
+    obtain ⟨hd, h⟩ := (intersect_line2d_ss_iff a b q).mp hq
+    exact ⟨hd, q, h⟩
+  · rintro ⟨hd, q, h⟩
+    exact ⟨q, (intersect_line2d_ss_iff a b q).mpr ⟨hd, h⟩⟩
+
+/-- "Infinite" variant (segment `a` × carrier line of `b`): returns `q` exactly when `d ≠ 0`,
+`q` lies on `a` within its range and on the infinite line through `b`. -/
+theorem intersect_line2d_infinite_ss_iff (a b : LR2 α) (q : V2 α) :
+    intersect_line2d_infinite_ss a b = some q ↔ Transversal2 a b ∧ OnSeg2 a q ∧ OnLine2 b q := by
+  rw [Lemmas.intersect_line2d_infinite_ss_eq]
+  exact Lemmas.isect2_eq_some_iff .seg .line a b q
+
+/-- Soundness of the "infinite" variant: the point is on `a` within range and on the carrier
+line of `b`. -/
+theorem intersect_line2d_infinite_ss_sound (a b : LR2 α) (q : V2 α)
+    (h : intersect_line2d_infinite_ss a b = some q) : OnSeg2 a q ∧ OnLine2 b q :=
+  ((intersect_line2d_infinite_ss_iff a b q).mp h).2
+
+/-- Completeness of the "infinite" variant: a transversal crossing at `ta` inside `a`'s range and
+any `tb` is returned. -/
+theorem intersect_line2d_infinite_ss_complete (a b : LR2 α) (hd : Transversal2 a b) (ta tb : α)
+    (hta : 0 ≤ ta ∧ ta ≤ 1)
+    (hx : a.p.x + ta * a.v.x = b.p.x + tb * b.v.x)
+    (hy : a.p.y + ta * a.v.y = b.p.y + tb * b.v.y) :
+    intersect_line2d_infinite_ss a b = some ⟨a.p.x + ta * a.v.x, a.p.y + ta * a.v.y⟩ :=
+  (intersect_line2d_infinite_ss_iff a b _).mpr
+    ⟨hd, ⟨ta, hta.1, hta.2, rfl, rfl⟩, ⟨tb, hx, hy⟩⟩
+
+/-! ### segment `a` × ray `b` -/
+
+/-- Full characterisation (segment `a` × ray `b`): the routine returns `q` exactly when the operands are
+transversal (`d ≠ 0`, the code's guard) and `q` lies on `a` within its range and on `b` within
+its range.  (Soundness, completeness and uniqueness of the returned point in one statement.) -/
+theorem intersect_line2d_sr_iff (a b : LR2 α) (q : V2 α) :
+    intersect_line2d_sr a b = some q ↔ Transversal2 a b ∧ OnSeg2 a q ∧ OnRay2 b q := by
+  rw [Lemmas.intersect_line2d_sr_eq]
+  exact Lemmas.isect2_eq_some_iff .seg .ray a b q
+
+/-- Soundness (segment `a` × ray `b`): a returned point lies on both operands, inside both parameter
+ranges. -/
+theorem intersect_line2d_sr_sound (a b : LR2 α) (q : V2 α)
+    (h : intersect_line2d_sr a b = some q) : OnSeg2 a q ∧ OnRay2 b q :=
+  ((intersect_line2d_sr_iff a b q).mp h).2
+
+/-- Completeness (segment `a` × ray `b`): a transversal crossing (`d ≠ 0`) at parameters `ta`, `tb` inside
+both ranges is returned, and the returned point is that crossing point. -/
+theorem intersect_line2d_sr_complete (a b : LR2 α) (hd : Transversal2 a b) (ta tb : α)
+    (hta : 0 ≤ ta ∧ ta ≤ 1) (htb : 0 ≤ tb)
+    (hx : a.p.x + ta * a.v.x = b.p.x + tb * b.v.x)
+    (hy : a.p.y + ta * a.v.y = b.p.y + tb * b.v.y) :
+    intersect_line2d_sr a b = some ⟨a.p.x + ta * a.v.x, a.p.y + ta * a.v.y⟩ :=
+  (intersect_line2d_sr_iff a b _).mpr
+    ⟨hd, ⟨ta, hta.1, hta.2, rfl, rfl⟩, ⟨tb, htb, hx, hy⟩⟩
+
+/-- Parallel operands (segment `a` × ray `b`): if the determinant is exactly zero the routine returns
+nothing (this is the code's guard; it also covers collinear overlapping operands). -/
+theorem intersect_line2d_sr_none_of_parallel (a b : LR2 α)
+    (h : b.v.y * a.v.x - b.v.x * a.v.y = 0) : intersect_line2d_sr a b = none := by
+  rw [Option.eq_none_iff_forall_ne_some]
+  intro q hq
+  exact ((intersect_line2d_sr_iff a b q).mp hq).1 h
+
+/-- Separated operands (segment `a` × ray `b`): if no point lies on both operands (within their ranges)
+the routine returns nothing. -/
+theorem intersect_line2d_sr_none_of_separated (a b : LR2 α)
+    (hsep : ∀ q, ¬ (OnSeg2 a q ∧ OnRay2 b q)) : intersect_line2d_sr a b = none := by
+  rw [Option.eq_none_iff_forall_ne_some]
+  intro q hq
+  exact hsep q (intersect_line2d_sr_sound a b q hq)
+
+/-- Separated operands, parameter form (segment `a` × ray `b`): if the operands are transversal and the unique
+solution `(ta, tb)` of the 2×2 system has a parameter outside its range, nothing is returned. -/
+theorem intersect_line2d_sr_none_of_param_outside (a b : LR2 α) (hd : Transversal2 a b) (ta tb : α)
+    (hx : a.p.x + ta * a.v.x = b.p.x + tb * b.v.x)
+    (hy : a.p.y + ta * a.v.y = b.p.y + tb * b.v.y)
+    (hout : ¬ ((0 ≤ ta ∧ ta ≤ 1) ∧ (0 ≤ tb))) : intersect_line2d_sr a b = none := by
+  rw [Option.eq_none_iff_forall_ne_some]
+  intro q hq
+  obtain ⟨_, ⟨ta', ha0, ha1, hax, hay⟩, ⟨tb', hb0, hbx, hby⟩⟩ :=
+    (intersect_line2d_sr_iff a b q).mp hq
+  obtain ⟨e1, e2⟩ := Lemmas.cramer_unique a b hd ta tb hx hy
+  obtain ⟨e1', e2'⟩ :=
+    Lemmas.cramer_unique a b hd ta' tb' (hax.symm.trans hbx) (hay.symm.trans hby)
+  have h1 : ta = ta' := e1.trans e1'.symm
+  have h2 : tb = tb' := e2.trans e2'.symm
+  subst h1; subst h2
+  exact hout ⟨⟨ha0, ha1⟩, hb0⟩
+
+/-- Symmetry (segment `a` × ray `b`): swapping the operands gives exactly the same result (the same point, as
+an identity in the field, or `none` on both sides). -/
+theorem intersect_line2d_sr_symm (a b : LR2 α) :
+    intersect_line2d_sr a b = intersect_line2d_rs b a := by
+  rw [Lemmas.intersect_line2d_sr_eq, Lemmas.intersect_line2d_rs_eq]
+  exact Lemmas.isect2_symm .seg .ray a b
+
+/-- The boolean existence test agrees with the point-returning routine (segment `a` × ray `b`). -/
+theorem does_intersection_exist_line2d_sr_iff (a b : LR2 α) :
+    does_intersection_exist_line2d_sr a b = true ↔ (intersect_line2d_sr a b).isSome = true := by
+  rw [Lemmas.does_intersection_exist_line2d_sr_eq, Lemmas.intersect_line2d_sr_eq]
+
+/-- The boolean existence test is `true` exactly when the operands are transversal and share a
+point within their ranges (segment `a` × ray `b`). -/
+theorem does_intersection_exist_line2d_sr_iff_exists (a b : LR2 α) :
+    does_intersection_exist_line2d_sr a b = true ↔ Transversal2 a b ∧ ∃ q, OnSeg2 a q ∧ OnRay2 b q := by
+  rw [does_intersection_exist_line2d_sr_iff, Option.isSome_iff_exists]
+  constructor
+  · rintro ⟨q, hq⟩
+    obtain ⟨hd, h⟩ := (intersect_line2d_sr_iff a b q).mp hq
+    exact ⟨hd, q, h⟩
+  · rintro ⟨hd, q, h⟩
+    exact ⟨q, (intersect_line2d_sr_iff a b q).mpr ⟨hd, h⟩⟩
+
+/-- "Infinite" variant (segment `a` × carrier line of `b`): returns `q` exactly when `d ≠ 0`,
+`q` lies on `a` within its range and on the infinite line through `b`. -/
+theorem intersect_line2d_infinite_sr_iff (a b : LR2 α) (q : V2 α) :
+    intersect_line2d_infinite_sr a b = some q ↔ Transversal2 a b ∧ OnSeg2 a q ∧ OnLine2 b q := by
+  rw [Lemmas.intersect_line2d_infinite_sr_eq]
+  exact Lemmas.isect2_eq_some_iff .seg .line a b q
+
+/-- Soundness of the "infinite" variant: the point is on `a` within range and on the carrier
+line of `b`. -/
+theorem intersect_line2d_infinite_sr_sound (a b : LR2 α) (q : V2 α)
+    (h : intersect_line2d_infinite_sr a b = some q) : OnSeg2 a q ∧ OnLine2 b q :=
+  ((intersect_line2d_infinite_sr_iff a b q).mp h).2
+
+/-- Completeness of the "infinite" variant: a transversal crossing at `ta` inside `a`'s range and
+any `tb` is returned. -/
+theorem intersect_line2d_infinite_sr_complete (a b : LR2 α) (hd : Transversal2 a b) (ta tb : α)
+    (hta : 0 ≤ ta ∧ ta ≤ 1)
+    (hx : a.p.x + ta * a.v.x = b.p.x + tb * b.v.x)
+    (hy : a.p.y + ta * a.v.y = b.p.y + tb * b.v.y) :
+    intersect_line2d_infinite_sr a b = some ⟨a.p.x + ta * a.v.x, a.p.y + ta * a.v.y⟩ :=
+  (intersect_line2d_infinite_sr_iff a b _).mpr
+    ⟨hd, ⟨ta, hta.1, hta.2, rfl, rfl⟩, ⟨tb, hx, hy⟩⟩
+
+/-! ### ray `a` × segment `b` -/
+
+/-- Full characterisation (ray `a` × segment `b`): the routine returns `q` exactly when the operands are
+transversal (`d ≠ 0`, the code's guard) and `q` lies on `a` within its range and on `b` within
+its range.  (Soundness, completeness and uniqueness of the returned point in one statement.) -/
+theorem intersect_line2d_rs_iff (a b : LR2 α) (q : V2 α) :
+    intersect_line2d_rs a b = some q ↔ Transversal2 a b ∧ OnRay2 a q ∧ OnSeg2 b q := by
+  rw [Lemmas.intersect_line2d_rs_eq]
+  exact Lemmas.isect2_eq_some_iff .ray .seg a b q
+
+/-- Soundness (ray `a` × segment `b`): a returned point lies on both operands, inside both parameter
+ranges. -/
+theorem intersect_line2d_rs_sound (a b : LR2 α) (q : V2 α)
+    (h : intersect_line2d_rs a b = some q) : OnRay2 a q ∧ OnSeg2 b q :=
+  ((intersect_line2d_rs_iff a b q).mp h).2
+
+/-- Completeness (ray `a` × segment `b`): a transversal crossing (`d ≠ 0`) at parameters `ta`, `tb` inside
+both ranges is returned, and the returned point is that crossing point. -/
+theorem intersect_line2d_rs_complete (a b : LR2 α) (hd : Transversal2 a b) (ta tb : α)
+    (hta : 0 ≤ ta) (htb : 0 ≤ tb ∧ tb ≤ 1)
+    (hx : a.p.x + ta * a.v.x = b.p.x + tb * b.v.x)
+    (hy : a.p.y + ta * a.v.y = b.p.y + tb * b.v.y) :
+    intersect_line2d_rs a b = some ⟨a.p.x + ta * a.v.x, a.p.y + ta * a.v.y⟩ :=
+  (intersect_line2d_rs_iff a b _).mpr
+    ⟨hd, ⟨ta, hta, rfl, rfl⟩, ⟨tb, htb.1, htb.2, hx, hy⟩⟩
+
+/-- Parallel operands (ray `a` × segment `b`): if the determinant is exactly zero the routine returns
+nothing (this is the code's guard; it also covers collinear overlapping operands). -/
+theorem intersect_line2d_rs_none_of_parallel (a b : LR2 α)
+    (h : b.v.y * a.v.x - b.v.x * a.v.y = 0) : intersect_line2d_rs a b = none := by
+  rw [Option.eq_none_iff_forall_ne_some]
+  intro q hq
+  exact ((intersect_line2d_rs_iff a b q).mp hq).1 h
+
+/-- Separated operands (ray `a` × segment `b`): if no point lies on both operands (within their ranges)
+the routine returns nothing. -/
+theorem intersect_line2d_rs_none_of_separated (a b : LR2 α)
+    (hsep : ∀ q, ¬ (OnRay2 a q ∧ OnSeg2 b q)) : intersect_line2d_rs a b = none := by
+  rw [Option.eq_none_iff_forall_ne_some]
+  intro q hq
+  exact hsep q (intersect_line2d_rs_sound a b q hq)
+
+/-- Separated operands, parameter form (ray `a` × segment `b`): if the operands are transversal and the unique
+solution `(ta, tb)` of the 2×2 system has a parameter outside its range, nothing is returned. -/
+theorem intersect_line2d_rs_none_of_param_outside (a b : LR2 α) (hd : Transversal2 a b) (ta tb : α)
+    (hx : a.p.x + ta * a.v.x = b.p.x + tb * b.v.x)
+    (hy : a.p.y + ta * a.v.y = b.p.y + tb * b.v.y)
+    (hout : ¬ ((0 ≤ ta) ∧ (0 ≤ tb ∧ tb ≤ 1))) : intersect_line2d_rs a b = none := by
+  rw [Option.eq_none_iff_forall_ne_some]
+  intro q hq
+  obtain ⟨_, ⟨ta', ha0, hax, hay⟩, ⟨tb', hb0, hb1, hbx, hby⟩⟩ :=
+    (intersect_line2d_rs_iff a b q).mp hq
+  obtain ⟨e1, e2⟩ := Lemmas.cramer_unique a b hd ta tb hx hy
+  obtain ⟨e1', e2'⟩ :=
+    Lemmas.cramer_unique a b hd ta' tb' (hax.symm.trans hbx) (hay.symm.trans hby)
+  have h1 : ta = ta' := e1.trans e1'.symm
+  have h2 : tb = tb' := e2.trans e2'.symm
+  subst h1; subst h2
+  exact hout ⟨ha0, ⟨hb0, hb1⟩⟩
+
+/-- Symmetry (ray `a` × segment `b`): swapping the operands gives exactly the same result (the same point, as
+an identity in the field, or `none` on both sides). -/
+theorem intersect_line2d_rs_symm (a b : LR2 α) :
+    intersect_line2d_rs a b = intersect_line2d_sr b a := by
+  rw [Lemmas.intersect_line2d_rs_eq, Lemmas.intersect_line2d_sr_eq]
+  exact Lemmas.isect2_symm .ray .seg a b
+
+/-- The boolean existence test agrees with the point-returning routine (ray `a` × segment `b`). -/
+theorem does_intersection_exist_line2d_rs_iff (a b : LR2 α) :
+    does_intersection_exist_line2d_rs a b = true ↔ (intersect_line2d_rs a b).isSome = true := by
+  rw [Lemmas.does_intersection_exist_line2d_rs_eq, Lemmas.intersect_line2d_rs_eq]
+
+/-- The boolean existence test is `true` exactly when the operands are transversal and share a
+point within their ranges (ray `a` × segment `b`). -/
+theorem does_intersection_exist_line2d_rs_iff_exists (a b : LR2 α) :
+    does_intersection_exist_line2d_rs a b = true ↔ Transversal2 a b ∧ ∃ q, OnRay2 a q ∧ OnSeg2 b q := by
+  rw [does_intersection_exist_line2d_rs_iff, Option.isSome_iff_exists]
+  constructor
+  · rintro ⟨q, hq⟩
+    obtain ⟨hd, h⟩ := (intersect_line2d_rs_iff a b q).mp hq
+    exact ⟨hd, q, h⟩
+  · rintro ⟨hd, q, h⟩
+    exact ⟨q, (intersect_line2d_rs_iff a b q).mpr ⟨hd, h⟩⟩
+
+/-- "Infinite" variant (ray `a` × carrier line of `b`): returns `q` exactly when `d ≠ 0`,
+`q` lies on `a` within its range and on the infinite line through `b`. -/
+theorem intersect_line2d_infinite_rs_iff (a b : LR2 α) (q : V2 α) :
+    intersect_line2d_infinite_rs a b = some q ↔ Transversal2 a b ∧ OnRay2 a q ∧ OnLine2 b q := by
+  rw [Lemmas.intersect_line2d_infinite_rs_eq]
+  exact Lemmas.isect2_eq_some_iff .ray .line a b q
+
+/-- Soundness of the "infinite" variant: the point is on `a` within range and on the carrier
+line of `b`. -/
+theorem intersect_line2d_infinite_rs_sound (a b : LR2 α) (q : V2 α)
+    (h : intersect_line2d_infinite_rs a b = some q) : OnRay2 a q ∧ OnLine2 b q :=
+  ((intersect_line2d_infinite_rs_iff a b q).mp h).2
+
+/-- Completeness of the "infinite" variant: a transversal crossing at `ta` inside `a`'s range and
+any `tb` is returned. -/
+theorem intersect_line2d_infinite_rs_complete (a b : LR2 α) (hd : Transversal2 a b) (ta tb : α)
+    (hta : 0 ≤ ta)
+    (hx : a.p.x + ta * a.v.x = b.p.x + tb * b.v.x)
+    (hy : a.p.y + ta * a.v.y = b.p.y + tb * b.v.y) :
+    intersect_line2d_infinite_rs a b = some ⟨a.p.x + ta * a.v.x, a.p.y + ta * a.v.y⟩ :=
+  (intersect_line2d_infinite_rs_iff a b _).mpr
+    ⟨hd, ⟨ta, hta, rfl, rfl⟩, ⟨tb, hx, hy⟩⟩
+
+/-! ### ray `a` × ray `b` -/
+
+/-- Full characterisation (ray `a` × ray `b`): the routine returns `q` exactly when the operands are
+transversal (`d ≠ 0`, the code's guard) and `q` lies on `a` within its range and on `b` within
+its range.  (Soundness, completeness and uniqueness of the returned point in one statement.) -/
+theorem intersect_line2d_rr_iff (a b : LR2 α) (q : V2 α) :
+    intersect_line2d_rr a b = some q ↔ Transversal2 a b ∧ OnRay2 a q ∧ OnRay2 b q := by
+  rw [Lemmas.intersect_line2d_rr_eq]
+  exact Lemmas.isect2_eq_some_iff .ray .ray a b q
+
+/-- Soundness (ray `a` × ray `b`): a returned point lies on both operands, inside both parameter
+ranges. -/
+theorem intersect_line2d_rr_sound (a b : LR2 α) (q : V2 α)
+    (h : intersect_line2d_rr a b = some q) : OnRay2 a q ∧ OnRay2 b q :=
+  ((intersect_line2d_rr_iff a b q).mp h).2
+
+/-- Completeness (ray `a` × ray `b`): a transversal crossing (`d ≠ 0`) at parameters `ta`, `tb` inside
+both ranges is returned, and the returned point is that crossing point. -/
+theorem intersect_line2d_rr_complete (a b : LR2 α) (hd : Transversal2 a b) (ta tb : α)
+    (hta : 0 ≤ ta) (htb : 0 ≤ tb)
+    (hx : a.p.x + ta * a.v.x = b.p.x + tb * b.v.x)
+    (hy : a.p.y + ta * a.v.y = b.p.y + tb * b.v.y) :
+    intersect_line2d_rr a b = some ⟨a.p.x + ta * a.v.x, a.p.y + ta * a.v.y⟩ :=
+  (intersect_line2d_rr_iff a b _).mpr
+    ⟨hd, ⟨ta, hta, rfl, rfl⟩, ⟨tb, htb, hx, hy⟩⟩
+
+/-- Parallel operands (ray `a` × ray `b`): if the determinant is exactly zero the routine returns
+nothing (this is the code's guard; it also covers collinear overlapping operands). -/
+theorem intersect_line2d_rr_none_of_parallel (a b : LR2 α)
+    (h : b.v.y * a.v.x - b.v.x * a.v.y = 0) : intersect_line2d_rr a b = none := by
+  rw [Option.eq_none_iff_forall_ne_some]
+  intro q hq
+  exact ((intersect_line2d_rr_iff a b q).mp hq).1 h
+
+/-- Separated operands (ray `a` × ray `b`): if no point lies on both operands (within their ranges)
+the routine returns nothing. -/
+theorem intersect_line2d_rr_none_of_separated (a b : LR2 α)
+    (hsep : ∀ q, ¬ (OnRay2 a q ∧ OnRay2 b q)) : intersect_line2d_rr a b = none := by
+  rw [Option.eq_none_iff_forall_ne_some]
+  intro q hq
+  exact hsep q (intersect_line2d_rr_sound a b q hq)
+
+/-- Separated operands, parameter form (ray `a` × ray `b`): if the operands are transversal and the unique
+solution `(ta, tb)` of the 2×2 system has a parameter outside its range, nothing is returned. -/
+theorem intersect_line2d_rr_none_of_param_outside (a b : LR2 α) (hd : Transversal2 a b) (ta tb : α)
+    (hx : a.p.x + ta * a.v.x = b.p.x + tb * b.v.x)
+    (hy : a.p.y + ta * a.v.y = b.p.y + tb * b.v.y)
+    (hout : ¬ ((0 ≤ ta) ∧ (0 ≤ tb))) : intersect_line2d_rr a b = none := by
+  rw [Option.eq_none_iff_forall_ne_some]
+  intro q hq
+  obtain ⟨_, ⟨ta', ha0, hax, hay⟩, ⟨tb', hb0, hbx, hby⟩⟩ :=
+    (intersect_line2d_rr_iff a b q).mp hq
+  obtain ⟨e1, e2⟩ := Lemmas.cramer_unique a b hd ta tb hx hy
+  obtain ⟨e1', e2'⟩ :=
+    Lemmas.cramer_unique a b hd ta' tb' (hax.symm.trans hbx) (hay.symm.trans hby)
+  have h1 : ta = ta' := e1.trans e1'.symm
+  have h2 : tb = tb' := e2.trans e2'.symm
+  subst h1; subst h2
+  exact hout ⟨ha0, hb0⟩
+
+/-- Symmetry (ray `a` × ray `b`): swapping the operands gives exactly the same result (the same point, as
+an identity in the field, or `none` on both sides). -/
+theorem intersect_line2d_rr_symm (a b : LR2 α) :
+    intersect_line2d_rr a b = intersect_line2d_rr b a := by
+  rw [Lemmas.intersect_line2d_rr_eq, Lemmas.intersect_line2d_rr_eq]
+  exact Lemmas.isect2_symm .ray .ray a b
+
+/-- The boolean existence test agrees with the point-returning routine (ray `a` × ray `b`). -/
+theorem does_intersection_exist_line2d_rr_iff (a b : LR2 α) :
+    does_intersection_exist_line2d_rr a b = true ↔ (intersect_line2d_rr a b).isSome = true := by
+  rw [Lemmas.does_intersection_exist_line2d_rr_eq, Lemmas.intersect_line2d_rr_eq]
+
+/-- The boolean existence test is `true` exactly when the operands are transversal and share a
+point within their ranges (ray `a` × ray `b`). -/
+theorem does_intersection_exist_line2d_rr_iff_exists (a b : LR2 α) :
+    does_intersection_exist_line2d_rr a b = true ↔ Transversal2 a b ∧ ∃ q, OnRay2 a q ∧ OnRay2 b q := by
+  rw [does_intersection_exist_line2d_rr_iff, Option.isSome_iff_exists]
+  constructor
+  · rintro ⟨q, hq⟩
+    obtain ⟨hd, h⟩ := (intersect_line2d_rr_iff a b q).mp hq
+    exact ⟨hd, q, h⟩
+  · rintro ⟨hd, q, h⟩
+    exact ⟨q, (intersect_line2d_rr_iff a b q).mpr ⟨hd, h⟩⟩
+
+/-- "Infinite" variant (ray `a` × carrier line of `b`): returns `q` exactly when `d ≠ 0`,
+`q` lies on `a` within its range and on the infinite line through `b`. -/
+theorem intersect_line2d_infinite_rr_iff (a b : LR2 α) (q : V2 α) :
+    intersect_line2d_infinite_rr a b = some q ↔ Transversal2 a b ∧ OnRay2 a q ∧ OnLine2 b q := by
+  rw [Lemmas.intersect_line2d_infinite_rr_eq]
+  exact Lemmas.isect2_eq_some_iff .ray .line a b q
+
+/-- Soundness of the "infinite" variant: the point is on `a` within range and on the carrier
+line of `b`. -/
+theorem intersect_line2d_infinite_rr_sound (a b : LR2 α) (q : V2 α)
+    (h : intersect_line2d_infinite_rr a b = some q) : OnRay2 a q ∧ OnLine2 b q :=
+  ((intersect_line2d_infinite_rr_iff a b q).mp h).2
+
+/-- Completeness of the "infinite" variant: a transversal crossing at `ta` inside `a`'s range and
+any `tb` is returned. -/
+theorem intersect_line2d_infinite_rr_complete (a b : LR2 α) (hd : Transversal2 a b) (ta tb : α)
+    (hta : 0 ≤ ta)
+    (hx : a.p.x + ta * a.v.x = b.p.x + tb * b.v.x)
+    (hy : a.p.y + ta * a.v.y = b.p.y + tb * b.v.y) :
+    intersect_line2d_infinite_rr a b = some ⟨a.p.x + ta * a.v.x, a.p.y + ta * a.v.y⟩ :=
+  (intersect_line2d_infinite_rr_iff a b _).mpr
+    ⟨hd, ⟨ta, hta, rfl, rfl⟩, ⟨tb, hx, hy⟩⟩
+
+/-! ### `intersect_line_segment2d` (segment × segment with an `_isclose` consistency test) -/
+
+/-- In exact arithmetic the extra `_isclose` test always passes (the two candidate points
+`a.p + ua·a.v` and `b.p + ub·b.v` are equal in a field), so the routine coincides with
+`intersect_line2d_ss`. -/
+theorem intersect_line_segment2d_eq_ss (a b : LR2 α) :
+    intersect_line_segment2d a b = intersect_line2d_ss a b := by
+  rw [Lemmas.intersect_line_segment2d_eq, Lemmas.intersect_line2d_ss_eq]
+
+/-- Soundness: a point returned by `intersect_line_segment2d` lies on both segments. -/
+theorem intersect_line_segment2d_sound (a b : LR2 α) (q : V2 α)
+    (h : intersect_line_segment2d a b = some q) : OnSeg2 a q ∧ OnSeg2 b q :=
+  intersect_line2d_ss_sound a b q (intersect_line_segment2d_eq_ss a b ▸ h)
+
+/-- Full characterisation of `intersect_line_segment2d`. -/
+theorem intersect_line_segment2d_iff (a b : LR2 α) (q : V2 α) :
+    intersect_line_segment2d a b = some q ↔ Transversal2 a b ∧ OnSeg2 a q ∧ OnSeg2 b q := by
+  rw [intersect_line_segment2d_eq_ss]; exact intersect_line2d_ss_iff a b q
+
+/-- Symmetry of `intersect_line_segment2d`. -/
+theorem intersect_line_segment2d_symm (a b : LR2 α) :
+    intersect_line_segment2d a b = intersect_line_segment2d b a := by
+  rw [intersect_line_segment2d_eq_ss, intersect_line_segment2d_eq_ss]
+  exact intersect_line2d_ss_symm a b
+
+/-! ### Non-vacuity (ℚ) -/
+
+/-- A concrete transversal crossing: `(0,0)→(2,0)` and `(1,-1)→(1,1)` meet at `(1,0)`. -/
+example : intersect_line2d_ss (⟨⟨0, 0⟩, ⟨2, 0⟩⟩ : LR2 ℚ) ⟨⟨1, -1⟩, ⟨0, 2⟩⟩ = some ⟨1, 0⟩ := by
+  decide +kernel
+/-- … and the hypotheses of the completeness theorem are satisfiable for it. -/
+example : Transversal2 (⟨⟨0, 0⟩, ⟨2, 0⟩⟩ : LR2 ℚ) ⟨⟨1, -1⟩, ⟨0, 2⟩⟩ := by
+  unfold Transversal2; norm_num
+/-- Separated segments return nothing. -/
+example : intersect_line2d_ss (⟨⟨0, 0⟩, ⟨2, 0⟩⟩ : LR2 ℚ) ⟨⟨5, -1⟩, ⟨0, 2⟩⟩ = none := by
+  decide +kernel
+/-- The same operands read as rays do meet (ray `a` reaches `x = 5`). -/
+example : intersect_line2d_rs (⟨⟨0, 0⟩, ⟨2, 0⟩⟩ : LR2 ℚ) ⟨⟨5, -1⟩, ⟨0, 2⟩⟩ = some ⟨5, 0⟩ := by
+  decide +kernel
+/-- Collinear overlapping segments: `none` (documented limitation, guard `d = 0`). -/
+example : intersect_line2d_ss (⟨⟨0, 0⟩, ⟨2, 0⟩⟩ : LR2 ℚ) ⟨⟨1, 0⟩, ⟨2, 0⟩⟩ = none := by
+  decide +kernel
+
+/-! ## 3D line / plane -/
+
+/-- Full characterisation (segment × plane): returns `q` exactly when `n·v ≠ 0` (the code's
+guard), `q` lies on the segment within `[0,1]` and `q` satisfies the plane equation. -/
+theorem intersect_line3d_plane_s_iff (l : LR3 α) (pl : PlaneS α) (q : V3 α) :
+    intersect_line3d_plane_s l pl = some q ↔ Crosses3 l pl ∧ OnSeg3 l q ∧ OnPlane pl q := by
+  rw [Lemmas.intersect_line3d_plane_s_eq]
+  exact Lemmas.isectLP_eq_some_iff .seg l pl q
+
+/-- Soundness (segment × plane): the returned point is `l.p + u·l.v` with `0 ≤ u ≤ 1` and lies
+on the plane (`n·q = k`). -/
+theorem intersect_line3d_plane_s_sound (l : LR3 α) (pl : PlaneS α) (q : V3 α)
+    (h : intersect_line3d_plane_s l pl = some q) : OnSeg3 l q ∧ OnPlane pl q :=
+  ((intersect_line3d_plane_s_iff l pl q).mp h).2
+
+/-- Completeness, parameter form (segment × plane): a result is returned exactly when
+`n·v ≠ 0` and the crossing parameter `(k − n·p)/(n·v)` lies in `[0,1]`. -/
+theorem intersect_line3d_plane_s_isSome_iff (l : LR3 α) (pl : PlaneS α) :
+    (intersect_line3d_plane_s l pl).isSome = true ↔
+      Crosses3 l pl ∧
+        (0 ≤ (pl.k - (pl.n.x * l.p.x + pl.n.y * l.p.y + pl.n.z * l.p.z)) /
+            (pl.n.x * l.v.x + pl.n.y * l.v.y + pl.n.z * l.v.z) ∧
+         (pl.k - (pl.n.x * l.p.x + pl.n.y * l.p.y + pl.n.z * l.p.z)) /
+            (pl.n.x * l.v.x + pl.n.y * l.v.y + pl.n.z * l.v.z) ≤ 1) := by
+  rw [Lemmas.intersect_line3d_plane_s_eq]
+  exact Lemmas.isectLP_isSome_iff .seg l pl
+
+/-- Completeness, geometric form (segment × plane): with `n·v ≠ 0`, any point on the segment
+that satisfies the plane equation is the returned point. -/
+theorem intersect_line3d_plane_s_complete (l : LR3 α) (pl : PlaneS α) (q : V3 α)
+    (hd : Crosses3 l pl) (hl : OnSeg3 l q) (hp : OnPlane pl q) :
+    intersect_line3d_plane_s l pl = some q :=
+  (intersect_line3d_plane_s_iff l pl q).mpr ⟨hd, hl, hp⟩
+
+/-- Parallel line and plane (`n·v = 0`): nothing is returned. -/
+theorem intersect_line3d_plane_s_none_of_parallel (l : LR3 α) (pl : PlaneS α)
+    (h : pl.n.x * l.v.x + pl.n.y * l.v.y + pl.n.z * l.v.z = 0) :
+    intersect_line3d_plane_s l pl = none := by
+  rw [Option.eq_none_iff_forall_ne_some]
+  intro q hq
+  exact ((intersect_line3d_plane_s_iff l pl q).mp hq).1 h
+
+/-- Full characterisation (ray × plane): returns `q` exactly when `n·v ≠ 0`, `q` lies on the ray
+(`0 ≤ u`) and on the plane. -/
+theorem intersect_line3d_plane_r_iff (l : LR3 α) (pl : PlaneS α) (q : V3 α) :
+    intersect_line3d_plane_r l pl = some q ↔ Crosses3 l pl ∧ OnRay3 l q ∧ OnPlane pl q := by
+  rw [Lemmas.intersect_line3d_plane_r_eq]
+  exact Lemmas.isectLP_eq_some_iff .ray l pl q
+
+/-- Soundness (ray × plane): the returned point is `l.p + u·l.v` with `0 ≤ u` and lies on the
+plane. -/
+theorem intersect_line3d_plane_r_sound (l : LR3 α) (pl : PlaneS α) (q : V3 α)
+    (h : intersect_line3d_plane_r l pl = some q) : OnRay3 l q ∧ OnPlane pl q :=
+  ((intersect_line3d_plane_r_iff l pl q).mp h).2
+
+/-- Completeness, parameter form (ray × plane): a result is returned exactly when `n·v ≠ 0`
+and the crossing parameter `(k − n·p)/(n·v)` is non-negative. -/
+theorem intersect_line3d_plane_r_isSome_iff (l : LR3 α) (pl : PlaneS α) :
+    (intersect_line3d_plane_r l pl).isSome = true ↔
+      Crosses3 l pl ∧
+        0 ≤ (pl.k - (pl.n.x * l.p.x + pl.n.y * l.p.y + pl.n.z * l.p.z)) /
+            (pl.n.x * l.v.x + pl.n.y * l.v.y + pl.n.z * l.v.z) := by
+  rw [Lemmas.intersect_line3d_plane_r_eq]
+  exact Lemmas.isectLP_isSome_iff .ray l pl
+
+/-- Completeness, geometric form (ray × plane). -/
+theorem intersect_line3d_plane_r_complete (l : LR3 α) (pl : PlaneS α) (q : V3 α)
+    (hd : Crosses3 l pl) (hl : OnRay3 l q) (hp : OnPlane pl q) :
+    intersect_line3d_plane_r l pl = some q :=
+  (intersect_line3d_plane_r_iff l pl q).mpr ⟨hd, hl, hp⟩
+
+/-- Parallel ray and plane (`n·v = 0`): nothing is returned. -/
+theorem intersect_line3d_plane_r_none_of_parallel (l : LR3 α) (pl : PlaneS α)
+    (h : pl.n.x * l.v.x + pl.n.y * l.v.y + pl.n.z * l.v.z = 0) :
+    intersect_line3d_plane_r l pl = none := by
+  rw [Option.eq_none_iff_forall_ne_some]
+  intro q hq
+  exact ((intersect_line3d_plane_r_iff l pl q).mp hq).1 h
+
+/-- "Infinite" variant on a segment operand: no range test at all; returns `q` exactly when
+`n·v ≠ 0`, `q` lies on the carrier line and on the plane. -/
+theorem intersect_line3d_plane_infinite_s_iff (l : LR3 α) (pl : PlaneS α) (q : V3 α) :
+    intersect_line3d_plane_infinite_s l pl = some q ↔
+      Crosses3 l pl ∧ OnLine3 l q ∧ OnPlane pl q := by
+  rw [Lemmas.intersect_line3d_plane_infinite_s_eq]
+  exact Lemmas.isectLP_eq_some_iff .line l pl q
+
+/-- Soundness of the "infinite" variant (segment operand). -/
+theorem intersect_line3d_plane_infinite_s_sound (l : LR3 α) (pl : PlaneS α) (q : V3 α)
+    (h : intersect_line3d_plane_infinite_s l pl = some q) : OnLine3 l q ∧ OnPlane pl q :=
+  ((intersect_line3d_plane_infinite_s_iff l pl q).mp h).2
+
+/-- Completeness of the "infinite" variant (segment operand): a result exists iff `n·v ≠ 0`. -/
+theorem intersect_line3d_plane_infinite_s_isSome_iff (l : LR3 α) (pl : PlaneS α) :
+    (intersect_line3d_plane_infinite_s l pl).isSome = true ↔ Crosses3 l pl := by
+  rw [Lemmas.intersect_line3d_plane_infinite_s_eq, Lemmas.isectLP_isSome_iff]
+  exact ⟨fun h => h.1, fun h => ⟨h, trivial⟩⟩
+
+/-- "Infinite" variant on a ray operand: identical behaviour (carrier line × plane). -/
+theorem intersect_line3d_plane_infinite_r_iff (l : LR3 α) (pl : PlaneS α) (q : V3 α) :
+    intersect_line3d_plane_infinite_r l pl = some q ↔
+      Crosses3 l pl ∧ OnLine3 l q ∧ OnPlane pl q := by
+  rw [Lemmas.intersect_line3d_plane_infinite_r_eq]
+  exact Lemmas.isectLP_eq_some_iff .line l pl q
+
+/-- Soundness of the "infinite" variant (ray operand). -/
+theorem intersect_line3d_plane_infinite_r_sound (l : LR3 α) (pl : PlaneS α) (q : V3 α)
+    (h : intersect_line3d_plane_infinite_r l pl = some q) : OnLine3 l q ∧ OnPlane pl q :=
+  ((intersect_line3d_plane_infinite_r_iff l pl q).mp h).2
+
+/-- Completeness of the "infinite" variant (ray operand): a result exists iff `n·v ≠ 0`. -/
+theorem intersect_line3d_plane_infinite_r_isSome_iff (l : LR3 α) (pl : PlaneS α) :
+    (intersect_line3d_plane_infinite_r l pl).isSome = true ↔ Crosses3 l pl := by
+  rw [Lemmas.intersect_line3d_plane_infinite_r_eq, Lemmas.isectLP_isSome_iff]
+  exact ⟨fun h => h.1, fun h => ⟨h, trivial⟩⟩
+
+/-- Non-vacuity: the segment `(0,0,-1)→(0,0,1)` crosses the plane `z = 0` at the origin. -/
+example : intersect_line3d_plane_s (⟨⟨0, 0, -1⟩, ⟨0, 0, 2⟩⟩ : LR3 ℚ)
+    ⟨⟨0, 0, 1⟩, ⟨0, 0, 0⟩, 0, ⟨1, 0, 0⟩, ⟨0, 1, 0⟩⟩ = some ⟨0, 0, 0⟩ := by decide +kernel
+
+/-! ## Plane / plane -/
+
+/-- Soundness of `intersect_plane_plane`: when a pair `(pt, dir)` is returned (the code's guard
+is `|n_a|²|n_b|² − (n_a·n_b)² ≠ 0`), `pt` satisfies both plane equations, and `dir` is the cross
+product of the normals, hence perpendicular to both. -/
+theorem intersect_plane_plane_sound (pa pb : PlaneS α) (pt dir : V3 α)
+    (h : intersect_plane_plane pa pb = some (pt, dir)) :
+    OnPlane pa pt ∧ OnPlane pb pt ∧ V3.dot pa.n dir = 0 ∧ V3.dot pb.n dir = 0
+      ∧ dir = V3.cross pa.n pb.n := by
+  unfold intersect_plane_plane at h
   simp only [] at h
-  split_ifs at h with h1 h2 h3 h4 h5
-  simp only [Option.some.injEq] at h
-  subst h
-  refine ⟨⟨_, not_lt.mp h2, not_lt.mp h3, rfl, rfl⟩, ⟨_, not_lt.mp h4, not_lt.mp h5, ?_, ?_⟩⟩
-  · simp only []
-    field_simp
-    ring
-  · simp only []
-    field_simp
-    ring
+  split_ifs at h with h1
+  simp only [Option.some.injEq, Prod.mk.injEq] at h
+  obtain ⟨rfl, rfl⟩ := h
+  have hdet : V3.normSq pa.n * V3.normSq pb.n - V3.dot pa.n pb.n * V3.dot pa.n pb.n ≠ 0 := by
+    intro h; apply h1
+    simp only [V3.normSq, V3.dot] at h; linear_combination h
+  have e1 := Lemmas.plane_plane_pt1 pa.n pb.n pa.k pb.k hdet
+  have e2 := Lemmas.plane_plane_pt2 pa.n pb.n pa.k pb.k hdet
+  simp only [V3.normSq, V3.dot] at e1 e2
+  refine ⟨?_, ?_, ?_, ?_, ?_⟩
+  · simp only [OnPlane]; linear_combination e1
+  · simp only [OnPlane]; linear_combination e2
+  · simp only [V3.dot]; ring
+  · simp only [V3.dot]; ring
+  · simp only [V3.cross]; ext <;> ring
+
+/-- Completeness of `intersect_plane_plane`: nothing is returned exactly when the normals are
+parallel (their cross product vanishes) — by Lagrange's identity the guarded quantity
+`|n_a|²|n_b|² − (n_a·n_b)²` equals `|n_a × n_b|²`. -/
+theorem intersect_plane_plane_none_iff (pa pb : PlaneS α) :
+    intersect_plane_plane pa pb = none ↔
+      (V3.cross pa.n pb.n).x = 0 ∧ (V3.cross pa.n pb.n).y = 0 ∧ (V3.cross pa.n pb.n).z = 0 := by
+  rw [← Lemmas.normSq3_eq_zero_iff]
+  unfold intersect_plane_plane
+  simp only []
+  split_ifs with h1
+  · refine ⟨fun _ => ?_, fun _ => rfl⟩
+    simp only [V3.normSq, V3.cross]; linear_combination h1
+  · refine ⟨fun h => absurd h (by simp), fun h => absurd ?_ h1⟩
+    simp only [V3.normSq, V3.cross] at h; linear_combination h
+
+/-- Non-vacuity: the planes `z = 0` and `x = 1` meet in a line through `(1,0,0)` along `y`. -/
+example : intersect_plane_plane
+    (⟨⟨0, 0, 1⟩, ⟨0, 0, 0⟩, 0, ⟨1, 0, 0⟩, ⟨0, 1, 0⟩⟩ : PlaneS ℚ)
+    ⟨⟨1, 0, 0⟩, ⟨1, 0, 0⟩, 1, ⟨0, 1, 0⟩, ⟨0, 0, 1⟩⟩ = some (⟨1, 0, 0⟩, ⟨0, 1, 0⟩) := by
+  decide +kernel
+
+/-! ## 3D line / sphere
+
+  KNOWN DEFECT (not hidden): `intersect_line3d_sphere_*` CLAMP a root that falls outside the
+  operand's parameter range instead of rejecting it.  Hence every returned point is on the
+  segment/ray, but NOT always on the sphere: a segment that stops short of the sphere yields
+  its end point.  The full soundness statement
+
+    `∀ q ∈ intersect_line3d_sphere_s M l sp, OnSeg3 l q ∧ OnSphere sp q`
+
+  is FALSE (counterexample below, at ℚ).  What is true is proved:
+  * `_on_segment/_on_ray`: every returned point is on the operand, within range (unconditional);
+  * `_sound_partial`: every returned point is on the sphere OR is an end point of the operand;
+  * `_sound_of_crossings_inside`: if all crossings of the carrier line with the sphere are within
+    range, every returned point is on the sphere;
+  * `_complete`: every in-range crossing is returned.
+  The code does not guard against a zero direction (`v·v = 0` divides by zero in Python); the
+  sphere statements carry `v·v ≠ 0` explicitly.  The square-root law is assumed only for
+  non-negative arguments.
+-/
+
+/-- Every point returned by `intersect_line3d_sphere_s` lies on the segment, parameter in
+`[0,1]` (unconditionally: out-of-range roots are clamped). -/
+theorem intersect_line3d_sphere_s_on_segment (M : MathOps α) (l : LR3 α) (sp : SphereS α)
+    (q : V3 α) (h : q ∈ intersect_line3d_sphere_s M l sp) : OnSeg3 l q := by
+  rw [Lemmas.intersect_line3d_sphere_s_eq] at h
+  exact Lemmas.sphPts_on .seg M l sp q h
+
+/-- Partial soundness (segment × sphere).  FULL statement (false, see the counterexample):
+every returned point is on the sphere.  PROVED: with `v·v ≠ 0` and the square-root law, every
+returned point satisfies the sphere equation or is an end point of the segment (`t = 0` or
+`t = 1`) produced by clamping an out-of-range root. -/
+theorem intersect_line3d_sphere_s_sound_partial (M : MathOps α) (l : LR3 α) (sp : SphereS α)
+    (q : V3 α) (hv : l.v.x * l.v.x + l.v.y * l.v.y + l.v.z * l.v.z ≠ 0)
+    (hsqrt : ∀ x, 0 ≤ x → M.sqrt x * M.sqrt x = x)
+    (h : q ∈ intersect_line3d_sphere_s M l sp) :
+    OnSphere sp q ∨ At3 l 0 q ∨ At3 l 1 q := by
+  rw [Lemmas.intersect_line3d_sphere_s_eq] at h
+  rcases Lemmas.sphPts_sphere_or_end .seg M l sp q hv (hsqrt _) h with h' | h' | ⟨_, h'⟩
+  · exact Or.inl h'
+  · subst h'; exact Or.inr (Or.inl ⟨rfl, rfl, rfl⟩)
+  · subst h'; exact Or.inr (Or.inr ⟨rfl, rfl, rfl⟩)
+
+/-- Soundness under the "unclamped roots inside the range" hypothesis (segment × sphere): if
+every crossing of the carrier line with the sphere has its parameter in `[0,1]`, every returned
+point satisfies the sphere equation `|q − c|² = r²`. -/
+theorem intersect_line3d_sphere_s_sound_of_crossings_inside (M : MathOps α) (l : LR3 α)
+    (sp : SphereS α) (q : V3 α)
+    (hv : l.v.x * l.v.x + l.v.y * l.v.y + l.v.z * l.v.z ≠ 0)
+    (hsqrt : ∀ x, 0 ≤ x → M.sqrt x * M.sqrt x = x)
+    (hin : ∀ t p, At3 l t p → OnSphere sp p → 0 ≤ t ∧ t ≤ 1)
+    (h : q ∈ intersect_line3d_sphere_s M l sp) : OnSphere sp q := by
+  rw [Lemmas.intersect_line3d_sphere_s_eq] at h
+  exact Lemmas.sphPts_sphere_of_inside .seg M l sp q hv (hsqrt _)
+    (fun t ht => hin t _ ⟨rfl, rfl, rfl⟩ ht) h
+
+/-- Completeness (segment × sphere): every point of the segment (parameter in `[0,1]`) that
+satisfies the sphere equation is returned. -/
+theorem intersect_line3d_sphere_s_complete (M : MathOps α) (l : LR3 α) (sp : SphereS α)
+    (q : V3 α) (hv : l.v.x * l.v.x + l.v.y * l.v.y + l.v.z * l.v.z ≠ 0)
+    (hsqrt : ∀ x, 0 ≤ x → M.sqrt x * M.sqrt x = x)
+    (hl : OnSeg3 l q) (hs : OnSphere sp q) : q ∈ intersect_line3d_sphere_s M l sp := by
+  rw [Lemmas.intersect_line3d_sphere_s_eq]
+  obtain ⟨t, h0, h1, hx, hy, hz⟩ := hl
+  have hq : q = Lemmas.at3 l t := V3.ext' hx hy hz
+  subst hq
+  exact Lemmas.sphPts_complete .seg M l sp hv (hsqrt _) t ⟨h0, h1⟩ hs
+
+/-- Every point returned by `intersect_line3d_sphere_r` lies on the ray, parameter `≥ 0`
+(unconditionally: negative roots are clamped to `0`). -/
+theorem intersect_line3d_sphere_r_on_ray (M : MathOps α) (l : LR3 α) (sp : SphereS α)
+    (q : V3 α) (h : q ∈ intersect_line3d_sphere_r M l sp) : OnRay3 l q := by
+  rw [Lemmas.intersect_line3d_sphere_r_eq] at h
+  exact Lemmas.sphPts_on .ray M l sp q h
+
+/-- Partial soundness (ray × sphere).  FULL statement (false): every returned point is on the
+sphere.  PROVED: every returned point satisfies the sphere equation or is the ray origin
+(`t = 0`) produced by clamping a negative root. -/
+theorem intersect_line3d_sphere_r_sound_partial (M : MathOps α) (l : LR3 α) (sp : SphereS α)
+    (q : V3 α) (hv : l.v.x * l.v.x + l.v.y * l.v.y + l.v.z * l.v.z ≠ 0)
+    (hsqrt : ∀ x, 0 ≤ x → M.sqrt x * M.sqrt x = x)
+    (h : q ∈ intersect_line3d_sphere_r M l sp) :
+    OnSphere sp q ∨ At3 l 0 q := by
+  rw [Lemmas.intersect_line3d_sphere_r_eq] at h
+  rcases Lemmas.sphPts_sphere_or_end .ray M l sp q hv (hsqrt _) h with h' | h' | ⟨hk, _⟩
+  · exact Or.inl h'
+  · subst h'; exact Or.inr ⟨rfl, rfl, rfl⟩
+  · exact absurd hk (by decide)
+
+/-- Soundness under the "unclamped roots inside the range" hypothesis (ray × sphere). -/
+theorem intersect_line3d_sphere_r_sound_of_crossings_inside (M : MathOps α) (l : LR3 α)
+    (sp : SphereS α) (q : V3 α)
+    (hv : l.v.x * l.v.x + l.v.y * l.v.y + l.v.z * l.v.z ≠ 0)
+    (hsqrt : ∀ x, 0 ≤ x → M.sqrt x * M.sqrt x = x)
+    (hin : ∀ t p, At3 l t p → OnSphere sp p → 0 ≤ t)
+    (h : q ∈ intersect_line3d_sphere_r M l sp) : OnSphere sp q := by
+  rw [Lemmas.intersect_line3d_sphere_r_eq] at h
+  exact Lemmas.sphPts_sphere_of_inside .ray M l sp q hv (hsqrt _)
+    (fun t ht => hin t _ ⟨rfl, rfl, rfl⟩ ht) h
+
+/-- Completeness (ray × sphere): every point of the ray on the sphere is returned. -/
+theorem intersect_line3d_sphere_r_complete (M : MathOps α) (l : LR3 α) (sp : SphereS α)
+    (q : V3 α) (hv : l.v.x * l.v.x + l.v.y * l.v.y + l.v.z * l.v.z ≠ 0)
+    (hsqrt : ∀ x, 0 ≤ x → M.sqrt x * M.sqrt x = x)
+    (hl : OnRay3 l q) (hs : OnSphere sp q) : q ∈ intersect_line3d_sphere_r M l sp := by
+  rw [Lemmas.intersect_line3d_sphere_r_eq]
+  obtain ⟨t, h0, hx, hy, hz⟩ := hl
+  have hq : q = Lemmas.at3 l t := V3.ext' hx hy hz
+  subst hq
+  exact Lemmas.sphPts_complete .ray M l sp hv (hsqrt _) t h0 hs
+
+/-- COUNTEREXAMPLE to full soundness (the known defect), at ℚ: the segment `(0,0,0)→(1,0,0)`
+stops short of the unit sphere centred at `(5,0,0)`; the discriminant is `4`, `√4 = 2` is exact
+(the stub `sqrt` below is correct at the only argument used), both roots (`6` and `4`) are
+clamped to `1`, and the routine returns the end point `(1,0,0)`, which is at squared distance
+`16 ≠ 1` from the centre. -/
+example :
+    intersect_line3d_sphere_s
+        (⟨fun x => if x = 4 then 2 else 0, id, id, id, id, id, fun _ _ => 0, 0, id⟩ : MathOps ℚ)
+        ⟨⟨0, 0, 0⟩, ⟨1, 0, 0⟩⟩ ⟨⟨5, 0, 0⟩, 1⟩ = [⟨1, 0, 0⟩]
+      ∧ ¬ OnSphere (⟨⟨5, 0, 0⟩, 1⟩ : SphereS ℚ) ⟨1, 0, 0⟩ := by
+  refine ⟨by decide +kernel, ?_⟩
+  unfold OnSphere distSq3; norm_num
+
+/-- Non-vacuity of the positive statements: the segment `(0,0,0)→(10,0,0)` crosses the same
+sphere at `(6,0,0)` and `(4,0,0)` (discriminant `400`, `√400 = 20`). -/
+example :
+    intersect_line3d_sphere_s
+        (⟨fun x => if x = 400 then 20 else 0, id, id, id, id, id, fun _ _ => 0, 0, id⟩ : MathOps ℚ)
+        ⟨⟨0, 0, 0⟩, ⟨10, 0, 0⟩⟩ ⟨⟨5, 0, 0⟩, 1⟩ = [⟨6, 0, 0⟩, ⟨4, 0, 0⟩] := by
+  decide +kernel
+
+/-! ## Plane / sphere -/
+
+/-- Soundness of `intersect_plane_sphere`, circle case.  Assume the square-root laws and a
+non-zero plane normal (the code normalises `pl.n` itself, so `|n| = 1` is not needed).  If the
+routine returns the circle `(c, n, r)` then
+* `n` is a unit vector and `pl.n = |pl.n|·n` (so `n` is the plane's unit normal);
+* `c = sp.center + d·n` with `d = (pl.o − sp.center)·n` the signed centre-to-plane distance;
+* `c` lies in the plane: `pl.n·(c − pl.o) = 0`;
+* `r² = R² − d²` and `r > 0`. -/
+theorem intersect_plane_sphere_sound (M : MathOps α) (pl : PlaneS α) (sp : SphereS α)
+    (c n : V3 α) (r : α)
+    (hsqrt : ∀ x, 0 ≤ x → M.sqrt x * M.sqrt x = x ∧ 0 ≤ M.sqrt x)
+    (hn : V3.normSq pl.n ≠ 0)
+    (h : intersect_plane_sphere M pl sp = some (Sum.inl (c, n, r))) :
+    V3.normSq n = 1 ∧ pl.n = V3.smul (M.sqrt (V3.normSq pl.n)) n ∧
+    c = V3.add sp.center (V3.smul (V3.dot (V3.sub pl.o sp.center) n) n) ∧
+    V3.dot pl.n (V3.sub c pl.o) = 0 ∧
+    r * r = sp.radius * sp.radius
+      - V3.dot (V3.sub pl.o sp.center) n * V3.dot (V3.sub pl.o sp.center) n ∧
+    0 < r := by
+  obtain ⟨hs, hs'⟩ := hsqrt (V3.normSq pl.n) (Lemmas.normSq3_nonneg _)
+  have hs0 : M.sqrt (V3.normSq pl.n) ≠ 0 := by
+    intro h0; rw [h0, mul_zero] at hs; exact hn hs.symm
+  obtain ⟨a1, a2⟩ := Lemmas.plane_sphere_algebra pl.n pl.o sp.center _ hs hs0
+  unfold intersect_plane_sphere at h
+  simp only [V3.normSq] at hs0 a1 a2 ⊢
+  simp only [hs0, ↓reduceIte] at h
+  split_ifs at h with h2 h3
+  · exact absurd h (by simp)
+  · simp only [Option.some.injEq, Sum.inl.injEq, Prod.mk.injEq] at h
+    obtain ⟨rfl, rfl, rfl⟩ := h
+    have hle : ∀ x y : α, ¬ (|x| < |y|) → 0 ≤ x * x - y * y := by
+      intro x y hxy
+      have := mul_self_le_mul_self (abs_nonneg y) (not_lt.mp hxy)
+      rw [abs_mul_abs_self, abs_mul_abs_self] at this
+      linarith
+    obtain ⟨r1, r2⟩ := hsqrt _ (hle _ _ h2)
+    refine ⟨?_, ?_, ?_, ?_, ?_, lt_of_le_of_ne r2 (Ne.symm h3)⟩
+    · linear_combination a1
+    · simp only [V3.smul]
+      ext <;> simp only [] <;> rw [← mul_div_assoc, mul_div_cancel_left₀ _ hs0]
+    · simp only [V3.add, V3.smul, V3.dot, V3.sub]; ext <;> simp only [] <;> ring
+    · simp only [V3.dot, V3.sub]; linear_combination a2
+    · simp only [V3.dot, V3.sub]; linear_combination r1
+
+/-- Circle case, plane-equation form: if moreover the plane's cached offset satisfies the
+`Plane` invariant `k = n·o`, the returned centre satisfies the plane equation `n·c = k`. -/
+theorem intersect_plane_sphere_center_on_plane (M : MathOps α) (pl : PlaneS α) (sp : SphereS α)
+    (c n : V3 α) (r : α)
+    (hsqrt : ∀ x, 0 ≤ x → M.sqrt x * M.sqrt x = x ∧ 0 ≤ M.sqrt x)
+    (hn : V3.normSq pl.n ≠ 0) (hk : pl.k = V3.dot pl.n pl.o)
+    (h : intersect_plane_sphere M pl sp = some (Sum.inl (c, n, r))) : OnPlane pl c := by
+  obtain ⟨_, _, _, h4, _, _⟩ := intersect_plane_sphere_sound M pl sp c n r hsqrt hn h
+  simp only [V3.dot, V3.sub] at h4 hk
+  simp only [OnPlane]
+  linear_combination h4 - hk
+
+/-- Circle case with a unit plane normal (the `Plane` invariant `n·n = 1`, `k = n·o`): the
+returned normal is `pl.n` itself, the centre satisfies the plane equation, and
+`radius² = r² − d²` with `d = (o − centre)·n`. -/
+theorem intersect_plane_sphere_sound_unit (M : MathOps α) (pl : PlaneS α) (sp : SphereS α)
+    (c n : V3 α) (r : α)
+    (hsqrt : ∀ x, 0 ≤ x → M.sqrt x * M.sqrt x = x ∧ 0 ≤ M.sqrt x)
+    (hunit : V3.normSq pl.n = 1) (hk : pl.k = V3.dot pl.n pl.o)
+    (h : intersect_plane_sphere M pl sp = some (Sum.inl (c, n, r))) :
+    n = pl.n ∧ OnPlane pl c ∧
+      r * r = sp.radius * sp.radius
+        - V3.dot (V3.sub pl.o sp.center) pl.n * V3.dot (V3.sub pl.o sp.center) pl.n := by
+  have hn : V3.normSq pl.n ≠ 0 := by rw [hunit]; exact one_ne_zero
+  obtain ⟨_, h2, _, _, h5, _⟩ := intersect_plane_sphere_sound M pl sp c n r hsqrt hn h
+  have hc := intersect_plane_sphere_center_on_plane M pl sp c n r hsqrt hn hk h
+  obtain ⟨s1, s2⟩ := hsqrt 1 zero_le_one
+  have hs1 : M.sqrt 1 = 1 := by
+    have : (M.sqrt 1 - 1) * (M.sqrt 1 + 1) = 0 := by linear_combination s1
+    rcases mul_eq_zero.mp this with h' | h'
+    · linear_combination h'
+    · linarith
+  rw [hunit, hs1] at h2
+  have hnn : n = pl.n := by
+    rw [h2]; simp only [V3.smul, one_mul]
+  exact ⟨hnn, hc, hnn ▸ h5⟩
+
+/-- Circle case, geometric soundness: every point `x` of the returned circle (in the plane
+through `c` perpendicular to `n`, at squared distance `r²` from `c`) lies on the sphere and in
+the plane (through `pl.o` with normal `pl.n`). -/
+theorem intersect_plane_sphere_circle_on_both (M : MathOps α) (pl : PlaneS α) (sp : SphereS α)
+    (c n : V3 α) (r : α)
+    (hsqrt : ∀ x, 0 ≤ x → M.sqrt x * M.sqrt x = x ∧ 0 ≤ M.sqrt x)
+    (hn : V3.normSq pl.n ≠ 0)
+    (h : intersect_plane_sphere M pl sp = some (Sum.inl (c, n, r)))
+    (x : V3 α) (hx1 : V3.dot n (V3.sub x c) = 0) (hx2 : distSq3 x c = r * r) :
+    OnSphere sp x ∧ V3.dot pl.n (V3.sub x pl.o) = 0 := by
+  obtain ⟨h1, h2, h3, h4, h5, _⟩ := intersect_plane_sphere_sound M pl sp c n r hsqrt hn h
+  subst h3
+  have nx := congrArg V3.x h2
+  have ny := congrArg V3.y h2
+  have nz := congrArg V3.z h2
+  simp only [V3.add, V3.smul, V3.dot, V3.sub, V3.normSq, distSq3, OnSphere] at *
+  constructor
+  · linear_combination hx2 + h5
+      + (2 * ((pl.o.x - sp.center.x) * n.x + (pl.o.y - sp.center.y) * n.y
+          + (pl.o.z - sp.center.z) * n.z)) * hx1
+      + (((pl.o.x - sp.center.x) * n.x + (pl.o.y - sp.center.y) * n.y
+          + (pl.o.z - sp.center.z) * n.z)
+        * ((pl.o.x - sp.center.x) * n.x + (pl.o.y - sp.center.y) * n.y
+          + (pl.o.z - sp.center.z) * n.z)) * h1
+  · linear_combination h4 + (M.sqrt (pl.n.x * pl.n.x + pl.n.y * pl.n.y + pl.n.z * pl.n.z)) * hx1
+      + (x.x - (sp.center.x + ((pl.o.x - sp.center.x) * n.x + (pl.o.y - sp.center.y) * n.y
+          + (pl.o.z - sp.center.z) * n.z) * n.x)) * nx
+      + (x.y - (sp.center.y + ((pl.o.x - sp.center.x) * n.x + (pl.o.y - sp.center.y) * n.y
+          + (pl.o.z - sp.center.z) * n.z) * n.y)) * ny
+      + (x.z - (sp.center.z + ((pl.o.x - sp.center.x) * n.x + (pl.o.y - sp.center.y) * n.y
+          + (pl.o.z - sp.center.z) * n.z) * n.z)) * nz
+
+/-- Tangent case: if a single point `p` is returned, it lies on the sphere and in the plane. -/
+theorem intersect_plane_sphere_tangent_sound (M : MathOps α) (pl : PlaneS α) (sp : SphereS α)
+    (p : V3 α)
+    (hsqrt : ∀ x, 0 ≤ x → M.sqrt x * M.sqrt x = x ∧ 0 ≤ M.sqrt x)
+    (hn : V3.normSq pl.n ≠ 0)
+    (h : intersect_plane_sphere M pl sp = some (Sum.inr p)) :
+    OnSphere sp p ∧ V3.dot pl.n (V3.sub p pl.o) = 0 := by
+  obtain ⟨hs, _⟩ := hsqrt (V3.normSq pl.n) (Lemmas.normSq3_nonneg _)
+  have hs0 : M.sqrt (V3.normSq pl.n) ≠ 0 := by
+    intro h0; rw [h0, mul_zero] at hs; exact hn hs.symm
+  obtain ⟨f1, _, f3⟩ := Lemmas.psN_facts M pl sp hs hs0
+  rw [Lemmas.intersect_plane_sphere_eq M pl sp hs0] at h
+  split_ifs at h with h2 h3
+  · simp only [Option.some.injEq, Sum.inr.injEq] at h
+    subst h
+    refine ⟨?_, f3⟩
+    obtain ⟨r1, _⟩ := hsqrt _ (sub_nonneg.mpr (Lemmas.mul_self_le_of_not_abs_lt _ _ h2))
+    rw [h3, mul_zero] at r1
+    simp only [V3.normSq] at f1
+    simp only [OnSphere, distSq3, Lemmas.psC]
+    linear_combination r1 + (Lemmas.psD M pl sp * Lemmas.psD M pl sp) * f1
+  · exact absurd h (by simp)
+
+/-- Separated case: if nothing is returned, no point of the plane lies on the sphere (the
+centre-to-plane distance exceeds the radius). -/
+theorem intersect_plane_sphere_none_separated (M : MathOps α) (pl : PlaneS α) (sp : SphereS α)
+    (hsqrt : ∀ x, 0 ≤ x → M.sqrt x * M.sqrt x = x ∧ 0 ≤ M.sqrt x)
+    (hn : V3.normSq pl.n ≠ 0)
+    (h : intersect_plane_sphere M pl sp = none)
+    (x : V3 α) (hx : V3.dot pl.n (V3.sub x pl.o) = 0) : ¬ OnSphere sp x := by
+  obtain ⟨hs, _⟩ := hsqrt (V3.normSq pl.n) (Lemmas.normSq3_nonneg _)
+  have hs0 : M.sqrt (V3.normSq pl.n) ≠ 0 := by
+    intro h0; rw [h0, mul_zero] at hs; exact hn hs.symm
+  obtain ⟨f1, f2, _⟩ := Lemmas.psN_facts M pl sp hs hs0
+  rw [Lemmas.intersect_plane_sphere_eq M pl sp hs0] at h
+  split_ifs at h with h2 h3
+  have hlt := Lemmas.mul_self_lt_of_abs_lt _ _ h2
+  -- `n̂·(x − c) = d`
+  have nx := congrArg V3.x f2
+  have ny := congrArg V3.y f2
+  have nz := congrArg V3.z f2
+  have hd : V3.dot (Lemmas.psN M pl) (V3.sub x sp.center) = Lemmas.psD M pl sp := by
+    apply mul_left_cancel₀ hs0
+    simp only [V3.dot, V3.sub, V3.smul, Lemmas.psD] at hx nx ny nz ⊢
+    linear_combination hx - (x.x - pl.o.x) * nx - (x.y - pl.o.y) * ny - (x.z - pl.o.z) * nz
+  have hc := Lemmas.cauchy3 (Lemmas.psN M pl) (V3.sub x sp.center)
+  rw [hd, f1, one_mul] at hc
+  intro hon
+  simp only [OnSphere, distSq3] at hon
+  simp only [V3.normSq, V3.sub] at hc
+  linarith
+
+/-- Non-vacuity (ℚ): the plane `z = 0` cuts the sphere of radius `5` centred at `(0,0,3)` in the
+circle of radius `4` centred at the origin (the stub `sqrt` is exact at the two arguments used,
+`√1 = 1` and `√16 = 4`). -/
+example :
+    intersect_plane_sphere
+        (⟨fun x => if x = 1 then 1 else if x = 16 then 4 else 0,
+          id, id, id, id, id, fun _ _ => 0, 0, id⟩ : MathOps ℚ)
+        ⟨⟨0, 0, 1⟩, ⟨0, 0, 0⟩, 0, ⟨1, 0, 0⟩, ⟨0, 1, 0⟩⟩ ⟨⟨0, 0, 3⟩, 5⟩
+      = some (Sum.inl (⟨0, 0, 0⟩, ⟨0, 0, 1⟩, 4)) := by
+  decide +kernel
 
 end Lbg.Props.C11
